@@ -124,6 +124,18 @@ def run(repo, rep, tier):
     from . import c09 as _c09
     L.borrow(repo, rep, "R01.8", "C09", _c09.element_details,
              ("decode-which", "attrs-alias-first"))
+    ds = repo.cls("chameleon.utils.DebuggingOutputStream").methods["append"]
+    rs = [n for n in ast.walk(ds.node) if isinstance(n, ast.Raise)]
+    okd = bool(rs)
+    for r in rs:
+        gs = [(src(t_), v_) for t_, v_ in L.guards_of(r, ds.node)
+              if isinstance(t_, ast.expr)]
+        if not L.cond_holds(gs, "isinstance(value, str)", False):
+            okd = False
+    rep.check(okd, "R01.5", ds.qualname, "the debugging output stream "
+              "rejects what is NOT a string (with CHAMELEON_DEBUG every "
+              "fragment passes here)", construct="debug-stream-guard",
+              where=L.where(ds))
     L.state_rule(repo, rep)
 
 
